@@ -409,7 +409,8 @@ func (Sim) Run(raw json.RawMessage, prop string, keep bool) (res simfw.Result) {
 //
 // "wrong-base-after-right-base": the location is what reference r, found in
 // document D, resolves to against the location of another document D' that
-// holds a fragment reference into D, and the loader had already asked for r's
+// holds a fragment reference into D (or into a document from which D is
+// reachable through references), and the loader had already asked for r's
 // proper target (r resolved against D's own location) earlier in the run. This
 // is the shape of the loader's second pass over an object it obtained through
 // a fragment reference (known finding K1). Anything else is a plain
@@ -436,6 +437,36 @@ func classifyUnjustified(loc string, readSoFar map[string]bool, refsOf map[strin
 		}
 		docs = append(docs, docT{l, baseOf[l], refsOf[l]})
 	}
+	byLoc := map[string]docT{}
+	for _, d := range docs {
+		byLoc[d.loc] = d
+	}
+	reachMemo := map[string]map[string]bool{}
+	reach := func(from string) map[string]bool {
+		if m, ok := reachMemo[from]; ok {
+			return m
+		}
+		seen := map[string]bool{from: true}
+		queue := []string{from}
+		for len(queue) > 0 {
+			l := queue[0]
+			queue = queue[1:]
+			d, ok := byLoc[l]
+			if !ok {
+				continue
+			}
+			for _, r := range d.refs {
+				for _, t := range resolveSet(d.base, r) {
+					if !seen[t] {
+						seen[t] = true
+						queue = append(queue, t)
+					}
+				}
+			}
+		}
+		reachMemo[from] = seen
+		return seen
+	}
 	for _, d := range docs { // D: where the reference was found
 		for _, r := range d.refs {
 			for _, dp := range docs { // D': whose location was used instead
@@ -451,14 +482,16 @@ func classifyUnjustified(loc string, readSoFar map[string]bool, refsOf map[strin
 				if !hit {
 					continue
 				}
-				// D' holds a fragment reference into D
+				// D' holds a fragment reference into D, or into a document from which D
+				// is reachable through references (the object D' obtained then embeds
+				// content of D)
 				refersInto := false
 				for _, r2 := range dp.refs {
 					if !strings.Contains(r2, "#") || strings.HasPrefix(r2, "#") {
 						continue
 					}
 					for _, t := range resolveSet(dp.base, r2) {
-						if t == d.loc {
+						if reach(t)[d.loc] {
 							refersInto = true
 						}
 					}
